@@ -43,6 +43,10 @@ ExtHdrs(n, ty) == {h \o <<ty>> : h \in FixExt(n)}
         \cup (IF n <= 65535 THEN {<<200>> \o BE(n, 2) \o <<ty>>} ELSE {})
         \cup {<<201>> \o BE(n, 4) \o <<ty>>}
 
+\* a container around the concatenated encodings of its n items / n pairs
+ArrOf(n, body) == {h \o body : h \in ArrHdrs(n)}
+MapOf(n, body) == {h \o body : h \in MapHdrs(n)}
+
 RECURSIVE Enc(_)
 Enc(v) ==
     CASE v.t = "null"  -> {<<192>>}
@@ -52,10 +56,9 @@ Enc(v) ==
       [] v.t = "str"   -> {h \o v.s : h \in StrHdrs(RLen(v.s))}
       [] v.t = "bin"   -> {h \o v.x : h \in BinHdrs(RLen(v.x))}
       [] v.t = "ext"   -> {h \o v.x : h \in ExtHdrs(RLen(v.x), v.ty)}
-      [] v.t = "nulls" -> {h \o Rep(v.n, 192) : h \in ArrHdrs(v.n)}
-      [] v.t = "arr"   -> {h \o b : h \in ArrHdrs(Len(v.a)),
-                                    b \in CatAll([i \in 1..Len(v.a) |-> Enc(v.a[i])])}
-      [] v.t = "map"   -> {h \o b : h \in MapHdrs(Len(v.k)),
+      [] v.t = "nulls" -> ArrOf(v.n, Rep(v.n, 192))
+      [] v.t = "arr"   -> UNION {ArrOf(Len(v.a), b) : b \in CatAll([i \in 1..Len(v.a) |-> Enc(v.a[i])])}
+      [] v.t = "map"   -> UNION {MapOf(Len(v.k), b) :
                                     b \in CatAll([i \in 1..(2 * Len(v.k)) |->
                                            IF i % 2 = 1 THEN Enc(Str(v.k[(i + 1) \div 2])) ELSE Enc(v.v[i \div 2])])}
 
@@ -63,8 +66,8 @@ Enc(v) ==
 \* shortest encodings of its parts (a subset of Enc(v) that stays enumerable)
 EncMin(v) == CHOOSE e \in Enc(v) : \A o \in Enc(v) : RLen(e) <= RLen(o)
 EncOuter(v) ==
-    CASE v.t = "arr" -> {h \o Flat([i \in 1..Len(v.a) |-> EncMin(v.a[i])]) : h \in ArrHdrs(Len(v.a))}
-      [] v.t = "map" -> {h \o Flat([i \in 1..Len(v.k) |-> EncMin(Str(v.k[i])) \o EncMin(v.v[i])]) : h \in MapHdrs(Len(v.k))}
+    CASE v.t = "arr" -> ArrOf(Len(v.a), Flat([i \in 1..Len(v.a) |-> EncMin(v.a[i])]))
+      [] v.t = "map" -> MapOf(Len(v.k), Flat([i \in 1..Len(v.k) |-> EncMin(Str(v.k[i])) \o EncMin(v.v[i])]))
       [] OTHER -> Enc(v)
 
 \* what torepr returns: bin and ext payloads come back as strings of the same bytes
